@@ -34,7 +34,11 @@ ALL = ["create", "fix", "trim", "update"]
 
 
 def flag_sets():
-    return st.lists(st.sampled_from(ALL), unique=True, max_size=4).map(sorted)
+    """uniform over the 16 subsets (st.lists would favour the empty and small subsets)"""
+    import itertools
+
+    subsets = [sorted(c) for n in range(5) for c in itertools.combinations(ALL, n)]
+    return st.sampled_from(subsets)
 
 
 def has_positional_call(text):
